@@ -26,6 +26,25 @@ META['text'] += ' Child documents are produced inside the visit window: lazy par
 LEAF_KEYS = {'str', 'bytes', 'int', 'float', 'bool', 'type(None)', 'type(...)'}
 
 
+def _membership_only(f, node):
+    """the attribute read ``node`` is the container of an ``in`` / ``not in`` test, or is bound to a local name whose every use is"""
+    from engine.astutil import enclosing_map
+    par = enclosing_map(f.node)
+
+    def is_container_of_test(x):
+        p = par.get(id(x))
+        return isinstance(p, ast.Compare) and len(p.ops) == 1 and isinstance(p.ops[0], (ast.In, ast.NotIn)) and p.comparators[0] is x
+    if is_container_of_test(node):
+        return True
+    p = par.get(id(node))
+    if isinstance(p, ast.Assign) and p.value is node and len(p.targets) == 1 and isinstance(p.targets[0], ast.Name):
+        name = p.targets[0].id
+        stores = [x for x in ast.walk(f.node) if isinstance(x, ast.Name) and x.id == name and isinstance(x.ctx, ast.Store)]
+        loads = [x for x in ast.walk(f.node) if isinstance(x, ast.Name) and x.id == name and isinstance(x.ctx, ast.Load)]
+        return len(stores) == 1 and bool(loads) and all(is_container_of_test(x) for x in loads)
+    return False
+
+
 def run(repo, rep):
     rep.explanation = ('R-PAIR typestate on the wrapper (C13.a), R-WHO on the visited set (C13.b), freshness of the '
                        'top-level set (C13.c), wrapping of every registered printer and leaf-only bypasses (C13.d), '
@@ -60,6 +79,12 @@ def run(repo, rep):
                 owner_ok = f.cls is ci and f.name in allowed
                 # reads through getattr in _replace are by name, not attribute: fine
                 par = None
+                if not owner_ok and isinstance(nnode.ctx, ast.Load) and _membership_only(f, nnode):
+                    # looked at, not touched: `id(x) in ctx.visited` (directly or through a local name used for nothing else) asks the
+                    # question is_visited asks and changes nothing
+                    n += 1
+                    rep.ok('C13.b', '%s:reads-visited:membership' % f.qualname, '%s:%d' % (f.module.relpath, nnode.lineno), 'membership test only')
+                    continue
                 if not owner_ok:
                     n += 1
                     rep.fail('C13.b', '%s:touches-visited' % f.qualname, '%s:%d' % (f.module.relpath, nnode.lineno),
